@@ -167,7 +167,7 @@ func shrinkCandidates(s *Scenario) []*Scenario {
 		for k := range l.Script {
 			k := k
 			it := &l.Script[k]
-			if it.Pay.Len > 0 {
+			if it.Pay.Len > 0 && it.Kind != "raw" { // a raw frame's length may be what makes it a violation
 				add(func(c *Scenario) bool { c.Links[li].Script[k].Pay.Len /= 2; return true })
 				add(func(c *Scenario) bool { c.Links[li].Script[k].Pay.Len--; return true })
 			}
